@@ -89,6 +89,10 @@ def contract_groups(tier):
         out.append(('contract:elementwise[%s,n=%d,order=%d]' % c, ('dep', 'C08', 'run_deriv', c, {})))
     for g, a in C12.groups(tier):
         out.append(('contract:bicomplex[%s]' % g, ('dep', 'C12', 'run_group', (a,), {})))
+    # the rule cache as shipped (run_cfg above starts from an empty cache) and the accepted range of n ("every derivative order the
+    # library accepts": multicomplex stops at n = 2 -- beyond that it must refuse, not return numbers)
+    out.append(('contract:rule-cache-at-import', ('dep', 'C06', 'run_cache0', (), {})))
+    out.append(('contract:accepted-orders[multicomplex]', ('dep', 'C11', 'run_mcn', (), {})))
     return out
 
 
@@ -305,7 +309,7 @@ def run_group(args):
     return run_zero()
 
 
-CONTRACT_ORIGIN = [('contract:rule[', 'C06', 'cfg['), ('contract:best-estimate[', 'C08', 'best-estimate['), ('contract:elementwise[', 'C08', 'deriv['),
+CONTRACT_ORIGIN = [('contract:rule-cache-at-import/', 'C06', 'cache-base-case/'), ('contract:accepted-orders[multicomplex]/', 'C11', 'multicomplex-n/'), ('contract:rule[', 'C06', 'cfg['), ('contract:best-estimate[', 'C08', 'best-estimate['), ('contract:elementwise[', 'C08', 'deriv['),
                    ('contract:bicomplex[', 'C12', None)]
 
 
